@@ -108,6 +108,14 @@ def probe_directed(prop, cfg, notes, n=3000, cap=60):
     return pharness.run(cfg, [('probe-directed', it) for it in dis[:cap]])
 
 
+def miri_smoke(prop, cfg, n, seed):
+    """Thorough tier of C12: a sample of the pool and of the compile-ready random items under Miri."""
+    cfg = b_config(prop, cfg)
+    items = pool(prop, n, cfg)[:n] + ready_items(prop, cfg, n, seed)
+    items = [(nm, it) for nm, it in items if not getattr(it, 'expect_error', None)]
+    return bharness.miri(cfg, items)
+
+
 def smoke(prop, cfg, limit=60, seed=20260929):
     """B on a sample of the property's pool plus random compile-ready items. Returns (report, relevant failures)."""
     items = pool(prop, limit, b_config(prop, cfg)) + ready_items(prop, b_config(prop, cfg), max(20, limit // 2), seed)
